@@ -565,7 +565,7 @@ func init() {
 			"the statement is an either/or: refusing a representable value is not an alarm (successes per cell are visible in the outcome labels); conversions the statement does not define (bool<->number, text form of floats, non-strconv bool words) are executed but not compared",
 			"float targets: exact means correctly rounded; float seconds into Duration: the float64 product, truncated",
 		},
-		Spaces: func(tier string) []*core.Space { return []*core.Space{c03Space(), c03Getters()} },
+		Spaces: func(tier string) []*core.Space { return []*core.Space{c03Space(), c03Getters(), c03ParsedText()} },
 	})
 }
 
